@@ -27,8 +27,8 @@ Proof.
   intros H. split; [|split].
   - intros a b E. subst t. apply drain_run_at in H. cbn [drain_check] in H.
     apply is_nilb_spec in H. exact H.
-  - intros a b E (Hg & Ho & Hw). subst t. apply drain_run_at in H. cbn [drain_check] in H.
-    fold (app_after a) in H. rewrite Hg, Ho, Hw in H. discriminate H.
+  - intros a b E (Hg & Ho & Hw & Hb). subst t. apply drain_run_at in H. cbn [drain_check] in H.
+    fold (app_after a) in H. rewrite Hg, Ho, Hw, Hb in H. discriminate H.
   - intros a b c E. subst t. apply drain_run_at in H. cbn [drain_check] in H. apply excuse_mem. exact H.
 Qed.
 
@@ -37,12 +37,13 @@ Lemma drain_run_complete t : forall pre,
 Proof.
   induction t as [|e t IH]; intros pre Hs Hl He; cbn [drain_run]; [reflexivity|].
   assert (Hc : drain_check (app_after pre) e = true).
-  { destruct e as [o|o]; [reflexivity|]. destruct o; try reflexivity; cbn [drain_check].
+  { destruct e as [o|o|bl|]; [reflexivity| |reflexivity|reflexivity]. destruct o; try reflexivity; cbn [drain_check].
     - apply is_nilb_spec. apply (Hs pre t). reflexivity.
     - specialize (Hl pre t eq_refl). unfold drained in Hl.
       destruct (a_goaway (app_after pre)); [|reflexivity].
       destruct (a_objs (app_after pre)); [|reflexivity].
       destruct (a_wait (app_after pre)); [|reflexivity].
+      destruct (a_blocked (app_after pre)); [reflexivity|].
       exfalso. apply Hl. auto.
     - apply excuse_mem. apply (He pre t). reflexivity. }
   rewrite Hc. cbn [andb].
@@ -376,9 +377,10 @@ Proof.
       replace rids with (rids ++ []) at 2 by apply app_nil_r. rewrite remove_heads. reflexivity. }
     split.
     + rewrite !map_app, drain_run_app, check_rejected, app_rejected.
-      cbn [map drain_run drain_check st_objs a_objs a_goaway a_wait].
+      cbn [map drain_run drain_check st_objs a_objs a_goaway a_wait a_blocked].
       rewrite <- Hw, Hq. replace rids with (rids ++ []) at 2 by apply app_nil_r. rewrite remove_heads.
       cbn [is_nilb]. rewrite andb_true_r.
+      destruct (a_blocked st); [cbn [negb]; rewrite !andb_false_r; reflexivity|]. cbn [negb]. rewrite andb_true_r.
       destruct (a_goaway st) eqn:G; [|reflexivity].
       destruct (a_objs st) as [|x l] eqn:Eo; [|reflexivity].
       exfalso. specialize (Hrecv eq_refl).
@@ -474,7 +476,8 @@ Proof.
   destruct fact_flags as (_ & Em & _).
   assert (Eq : headers_qpack_code = rfc_QPACK_DECOMPRESSION_FAILED) by reflexivity.
   assert (Eu : headers_unexpected_code = rfc_H3_FRAME_UNEXPECTED) by reflexivity.
-  intros Hh Hu. unfold end_effect. rewrite Em, Eq, Eu.
+  assert (Et : headers_truncated_code = rfc_H3_FRAME_ERROR) by reflexivity.
+  intros Hh Hu. unfold end_effect. rewrite Em, Eq, Eu, Et.
   destruct o; cbn [is_handle_op] in Hh; try contradiction;
     destruct obj as [| |sd rv]; repeat (match goal with b : bool |- _ => destruct b end); cbn [obj_update] in Hu;
     try discriminate Hu; inversion Hu; subst; cbn [gone_of andb];
@@ -818,7 +821,7 @@ Proof.
   destruct Hfin as [Hd|Hinv].
   { exfalso. destruct (Hde Hd) as (c & Hc). exact (Hnoerr c Hc). }
   set (w := snd (drun world0 h)) in *.
-  destruct Hdr as (Hg & Ho & Hw).
+  destruct Hdr as (Hg & Ho & Hw & Hbl).
   assert (Hq : s_inq (w_srv w) = []) by (rewrite (wi_wait _ _ _ Hinv); exact Hw).
   assert (Hstep : fst (dstep w DPoll) = DI DPoll :: map DO (fst (accept (w_srv w)))).
   { unfold dstep. rewrite (wi_alive _ _ _ Hinv), Hq. cbn [length poll_all].
